@@ -263,10 +263,11 @@ H("path_amplification_allowance", ["C07"], "quick", "connection::paths::amplific
   assumes=["the gate argument `segment_size * num_datagrams + 1` is copied from the call site in Connection::poll_transmit (the call site itself is not encoded)"])
 
 # ------------------------------------------------------------------ datagrams.rs (C16.a, C06.d)
-H("dgram_received", ["C16", "C06"], "quick", "connection::datagrams::received",
-  [("k", "u8"), ("l0", "u8"), ("l1", "u8"), ("n", "u8"), ("has_window", "bool"), ("window", "u32")], 6,
-  ["accepted", "PROTOCOL_VIOLATION", "oldest dropped"],
-  ["DatagramState::received", "DatagramState::recv"], "0..=1 datagram buffered, every length: u8, every window: u32 (static payloads: content is not copied by this layer); two or more buffered datagrams exceed the SAT back end's memory")
+# (dgram_received - the Kani form of DatagramState::received - was retired with fix 19: the repaired function has two
+#  drop loops over the VecDeque and CBMC's solver runs out of memory on it even with a concrete queue shape; the E2 query
+#  e2_dgram_received_bounds decides refusal, both bounds, drop-only-when-needed and what is appended)
+H("dgram_received_count_native", ["C03", "C06", "C16"], "replay-only", "connection::datagrams::received_count_native",
+  [("window", "u16"), ("n", "u16")], 4, [], ["DatagramState::received", "DatagramState::recv"], "native replay body of E2 query e2_dgram_received_bounds; demonstration for finding 19")
 H("dgram_recv_in_order", ["C16"], "quick", "connection::datagrams::recv_in_order",
   [("k", "u8"), ("l0", "u8"), ("l1", "u8")], 6,
   ["empty queue", "one datagram", "two datagrams"], ["DatagramState::recv"], "0..=2 datagrams buffered, every length: u8")
